@@ -243,11 +243,11 @@ func modeC13(cutsFile string, thorough bool) {
 		streamBarrier = true
 		var wg sync.WaitGroup
 		for _, lst := range lsts {
-			for k := 0; k < map[string]int{"tls": 16, "tcp": 4, "gnet": 4}[lst]; k++ {
+			for k := 0; k < map[string]int{"tls": 24, "tcp": 4, "gnet": 4}[lst]; k++ {
 				wg.Add(1)
 				go func(lst string, s int64) {
 					defer wg.Done()
-					runStream(in, lst, 12, nil, "one", same, rand.New(rand.NewSource(s)), 100)
+					runStream(in, lst, 20, nil, "one", same, rand.New(rand.NewSource(s)), 100)
 				}(lst, seed+int64(k))
 			}
 		}
